@@ -304,10 +304,22 @@ MANY_P = [
 ]
 
 
+# gapped windows (stride > window) with an inner group_by: every second / third item of a key opens a new window on the slot of
+# the previous one, and its first item falls into the same inner group as the last item before the gap
+MANY_GAPPED = [
+    [['roll', 1, 2, [['group_by', 2, [['count', True]]]]]],
+    [['roll', 2, 3, [['group_by', 3, [['scan_sum', True]]]]]],
+]
+
+
 def many_enum(tier):
     for nk in ((300, 5000) if tier == 'quick' else (300, 4097, 5000, 9000)):
         for p in MANY_P:
             yield {'nk': nk, 'p': p}
+    for nk in ((300,) if tier == 'quick' else (300, 1100)):
+        for p in MANY_GAPPED:
+            # each key's items in one run (a source sorted by user): key indices beyond CPython's cached small ints (256)
+            yield {'nk': nk, 'p': p, 'contiguous': 7}
 
 
 def check_many(case):
@@ -316,6 +328,8 @@ def check_many(case):
     nk, p = case['nk'], case['p']
     # three rounds over all keys: every key has 3 items, all keys stay live until the end
     items = [(k, (k * 7 + r * 3) % 11 - 4) for r in range(3) for k in range(nk)]
+    if case.get('contiguous'):
+        items = [(k, (k + r) % 2) for k in range(nk) for r in range(case['contiguous'])]
     tail = []
     ops = [rs.ops.group_by(lambda i: i[0], [rs.ops.map(lambda i: i[1])] + A.build_pipeline(p, A.Env()) + [drive.tap(tail)])]
     r = drive.store(items, ops)
@@ -330,7 +344,7 @@ def check_many(case):
     if len(order) != nk:
         raise Violation('%d groups created for %d keys' % (len(order), nk), pipeline=p)
     for k, key in enumerate(order):           # groups are created in order of first appearance = key order
-        vals = [v for kk, v in items if kk == k] if nk <= 300 else [(k * 7 + r_ * 3) % 11 - 4 for r_ in range(3)]
+        vals = [v for kk, v in items if kk == k] if (nk <= 300 or case.get('contiguous')) else [(k * 7 + r_ * 3) % 11 - 4 for r_ in range(3)]
         exp = [v for _, v in H.model_events(p, vals, 'mux')[0]]
         if not cmp.same_seq(per.get(key, []), exp, approx=True):
             raise Violation('key %d of %d live keys: output differs from the model of its own items' % (k, nk), key=k, values=vals,
